@@ -452,6 +452,76 @@ fn under_link(t: &NTree, c: &str, top: &str) -> bool {
     false
 }
 
+fn through_link_cycles(sroot: &str, rep: &mut Report) {
+    use std::os::unix::fs::symlink;
+    // (name of the link to an ancestor, its text, name of the second link, its text, walk root)
+    let shapes: [(&str, &str, &str, &str, &str, &str); 6] = [
+        // plain cycles (controls: these must and do end)
+        ("plain-ancestor-link", "a/a/l", "../..", "", "", "a"),
+        ("plain-link-to-root-of-walk", "a/a/l", "..", "", "", "a"),
+        ("link-to-link-to-ancestor", "x/l1", "..", "a/a/l2", "../../x/l1", "a"),
+        // the second link's target path runs through the first link
+        ("target-through-link-to-ancestor", "a/a/a", "../..", "a/a/b/a", "../a/a", "a"),
+        ("target-through-link-to-ancestor", "a/z", "..", "a/b/k", "../z/a", "a"),
+        ("target-through-link-to-ancestor", "a/a/l", "../..", "a/m", "a/l/a", ""),
+    ];
+    for (class, l1, t1, l2, t2, walk) in shapes {
+        wipe(sroot);
+        for d in ["a/a/b", "a/b", "a/c", "x"] {
+            let _ = std::fs::create_dir_all(format!("{}/{}", sroot, d));
+        }
+        let _ = std::fs::write(format!("{}/a/a/f", sroot), b"x");
+        let _ = symlink(t1, format!("{}/{}", sroot, l1));
+        if !l2.is_empty() {
+            let _ = symlink(t2, format!("{}/{}", sroot, l2));
+        }
+        let root = if walk.is_empty() { sroot.to_string() } else { format!("{}/{}", sroot, walk) };
+        for (oname, sort, cfirst) in [("all+follow", false, false), ("all+follow+ordered", true, false), ("all+follow+contents_first", false, true)] {
+            rep.eval();
+            let cap = 20_000usize;
+            set_case(&format!("walk:stdfs({},{}):terminates→stalls", oname, class), &format!("{} -> {}, {} -> {}", l1, t1, l2, t2));
+            let mut e = match Stdfs::new().entries(&root) {
+                Ok(e) => e.follow(true),
+                Err(_) => continue,
+            };
+            if sort {
+                e = e.sort_by_name();
+            }
+            if cfirst {
+                e = e.contents_first();
+            }
+            let (mut items, mut errors, mut longest) = (0usize, 0usize, 0usize);
+            let mut ended = true;
+            for x in e {
+                items += 1;
+                match x {
+                    Ok(en) => longest = longest.max(en.path().to_string_lossy().len() - sroot.len()),
+                    Err(_) => errors += 1,
+                }
+                if items >= cap {
+                    ended = false;
+                    break;
+                }
+            }
+            rep.key_str(&format!("stdfs|directed|{}|{}|{}", oname, class, ended));
+            rep.count("directed_link_cycle_walks", 1);
+            if !ended {
+                rep.violation(
+                    &format!("walk:stdfs({},{}):terminates-when-polled-past-errors→still-yielding-after-{}-items", oname, class, cap),
+                    J::obj(vec![
+                        ("tree", J::s(format!("dirs a/a/b a/b a/c x, file a/a/f, link {} -> {}, link {} -> {}", l1, t1, l2, t2))),
+                        ("walk", J::s(format!("Stdfs entries({}).follow(true) [{}]", if walk.is_empty() { "<root>" } else { walk }, oname))),
+                        ("items", J::Int(items as i64)),
+                        ("errors_among_them", J::Int(errors as i64)),
+                        ("longest_path_below_root", J::Int(longest as i64)),
+                    ]),
+                );
+            }
+        }
+    }
+    wipe(sroot);
+}
+
 fn c08(ctx: &Ctx, rep: &mut Report) {
     let (sb, sroot) = Sandbox::nested("c08");
     let recs = option_records();
@@ -567,6 +637,12 @@ fn c08(ctx: &Ctx, rep: &mut Report) {
             ref_walk(&t, "/", 0, o, &mut vec![], &mut exp, &mut ties, &mut budget);
             rep.sample(J::obj(vec![("tree", t.to_json()), ("options", J::s(format!("{:?}", o))), ("expected_sequence", J::Arr(exp.iter().map(|x| J::s(format!("{:?}", x))).collect()))]));
         }
+    }
+    // directed family, real backend only: link cycles whose link TARGET PATH passes through another link (the random
+    // reference trees cannot express that: a link has no children there). Judged on termination alone, polling
+    // past every error like a consumer that skips failed items
+    if ctx.shard == 0 {
+        through_link_cycles(&sroot, rep);
     }
     // a 60-deep chain without the hook: more open directories than the internal descriptor cap of 50
     if ctx.shard == 0 {
